@@ -262,25 +262,15 @@ namespace Givaro {
     // Euclidian division
     Integer& Integer::divmod(Integer& q, Integer& r, const Integer &a, const Integer &b)
     {
-        mpz_tdiv_qr( (mpz_ptr)&(q.gmp_rep), (mpz_ptr)&(r.gmp_rep),
-                     (mpz_srcptr)&(a.gmp_rep), (mpz_srcptr)&(b.gmp_rep));
-
-        /* If r is negative (happen if a is negative, as sign(r) = sign(a)),
-         * we need to modify q and r to have a positive r.
+        /* 0 <= r < |b|: floor division for b > 0, ceiling division for b < 0.
+         * One GMP call, so that q or r may be the same object as a or b.
          */
-        if (r < 0)
-        {
-            if (b > 0)
-            {
-                subin (q, (uint64_t)1) ;
-                r += b;
-            }
-            else /* b is negative */
-            {
-                addin (q, (uint64_t)1) ;
-                r -= b;
-            }
-        }
+        if (b > 0)
+            mpz_fdiv_qr( (mpz_ptr)&(q.gmp_rep), (mpz_ptr)&(r.gmp_rep),
+                         (mpz_srcptr)&(a.gmp_rep), (mpz_srcptr)&(b.gmp_rep));
+        else
+            mpz_cdiv_qr( (mpz_ptr)&(q.gmp_rep), (mpz_ptr)&(r.gmp_rep),
+                         (mpz_srcptr)&(a.gmp_rep), (mpz_srcptr)&(b.gmp_rep));
 
         return q;
     }
